@@ -88,6 +88,11 @@ impl CacheRegion {
   pub fn set_bank(&mut self, bank: u16) {
     self.current_bank = bank;
   }
+
+  #[cfg(feature = "verif")]
+  pub fn verif_bank(&self) -> u16 {
+    self.current_bank
+  }
 }
 
 /// CachedBlocks stores individual lookup caches for each region of memory that
@@ -111,6 +116,19 @@ impl CachedBlocks {
       wram_high: CacheRegion::new(1),
       high_ram: CacheRegion::new(0),
     }
+  }
+
+  /// All regions, in address order
+  #[cfg(feature = "verif")]
+  pub fn verif_regions(&self) -> [&CacheRegion; 6] {
+    [
+      &self.rom_low,
+      &self.rom_high,
+      &self.cart_ram,
+      &self.wram_low,
+      &self.wram_high,
+      &self.high_ram,
+    ]
   }
 
   pub fn get_region(&self, addr: u16) -> Option<&CacheRegion> {
